@@ -22,7 +22,6 @@ import (
 	"github.com/buildbarn/bb-remote-execution/pkg/scheduler/invocation"
 	"github.com/buildbarn/bb-remote-execution/pkg/scheduler/platform"
 	"github.com/buildbarn/bb-remote-execution/pkg/scheduler/routing"
-	"github.com/buildbarn/bb-storage/pkg/auth"
 	"github.com/buildbarn/bb-storage/pkg/digest"
 	"github.com/buildbarn/bb-storage/pkg/util"
 	status_pb "google.golang.org/genproto/googleapis/rpc/status"
@@ -94,6 +93,8 @@ type config struct {
 	MaxTicks int
 
 	SendFaults bool
+	// Send is a plain scheduling point (message in flight while others run).
+	SendPoint bool
 	// Analyzer fake: number of alternatives at each Choose point (0/1:
 	// deterministic, governed by the *Always / SelectLargest flags).
 	SelectChoices, RetryChoices, BackgroundChoices int
@@ -149,6 +150,7 @@ type actor struct {
 	inCall      bool
 	ctx         *fakeCtx
 	doneCalls   int
+	nowCalls    int // clock reads of the current call (>0: it has entered the scheduler)
 	timer       *fakeTimer
 	resetOnDone string
 	cancelsLeft int
@@ -237,10 +239,6 @@ func (w *world) findStream(id string) *stream {
 
 const instanceName = "main"
 
-func allowAll() auth.Authorizer {
-	return auth.NewStaticAuthorizer(func(digest.InstanceName) bool { return true })
-}
-
 func sec(n int) time.Duration { return time.Duration(n) * time.Second }
 
 func newWorld(x *mc.X, cfg *config) *world {
@@ -271,7 +269,7 @@ func newWorld(x *mc.X, cfg *config) *world {
 		GetIdleWorkerSynchronizationInterval: func() time.Duration { return idle },
 		WorkerTaskRetryCount:                 cfg.RetryCount,
 		WorkerWithNoSynchronizationsTimeout:  sec(cfg.WorkerTimeout),
-	}, 1<<20, router, allowAll(), allowAll(), allowAll(), allowAll())
+	}, 1<<20, router, &pointAuthorizer{w, "execute"}, &pointAuthorizer{w, "drains"}, &pointAuthorizer{w, "kill"}, &pointAuthorizer{w, "synchronize"})
 	if cfg.Predeclared != nil {
 		if err := w.bq.RegisterPredeclaredPlatformQueue(util.Must(digest.NewInstanceName(instanceName)), platformOf("linux"), nil, cfg.MaxBackground, 0, cfg.Predeclared); err != nil {
 			panic(err)
@@ -372,6 +370,7 @@ func (a *actor) beginCall(parent context.Context) *fakeCtx {
 	a.ctx = newFakeCtx(a, parent)
 	a.inCall = true
 	a.doneCalls = 0
+	a.nowCalls = 0
 	a.timer = nil
 	w.lastActivity = w.clock.tick()
 	return a.ctx
@@ -423,6 +422,7 @@ func (a *actor) runClient() {
 				ActionDigest:    ai.digest,
 				ExecutionPolicy: &remoteexecution.ExecutionPolicy{Priority: int32(prio)},
 			}, s)
+			w.x.CheckNoLocksHeld("Execute")
 			a.endCall()
 			w.mon.onStreamEnd(s, err)
 		case "wait":
@@ -435,6 +435,7 @@ func (a *actor) runClient() {
 			s.ctx = a.beginCall(context.Background())
 			w.mon.onStreamStart(s)
 			err := w.bq.WaitExecution(&remoteexecution.WaitExecutionRequest{Name: name}, s)
+			w.x.CheckNoLocksHeld("WaitExecution")
 			a.endCall()
 			w.mon.onStreamEnd(s, err)
 		default:
@@ -677,6 +678,7 @@ func (a *actor) runWorker() {
 		w.mu.Unlock()
 		w.mon.onWorkerCallStart(a)
 		resp, err := w.bq.Synchronize(ctx, req)
+		w.x.CheckNoLocksHeld("Synchronize")
 		a.endCall()
 		w.mon.onWorkerCallEnd(a, resp, err)
 		if err != nil {
@@ -795,6 +797,7 @@ func (a *actor) runOperator() {
 		default:
 			panic("bad operator call " + call)
 		}
+		w.x.CheckNoLocksHeld("operator/" + f[0])
 		a.endCall()
 		w.mu.Lock()
 		oc.ended = true
@@ -952,7 +955,7 @@ func (w *world) addEvents() {
 // Scenario plumbing
 
 func (cfg *config) scenario() *mc.Scenario {
-	all := []string{"C01", "C02", "C03", "C06", "C07"}
+	all := []string{"C01", "C02", "C03", "C06", "C07", "C14"}
 	bounds := cfg.Bounds
 	if bounds == nil {
 		bounds = map[string]int{"quick": 2, "thorough": 4}
@@ -965,8 +968,11 @@ func (cfg *config) scenario() *mc.Scenario {
 	return &mc.Scenario{
 		Name:        cfg.Name,
 		Props:       cfg.Props,
-		Liveness:    []string{"C06", "C02"},
-		Livelock:    []string{"C06"},
+		// C14: "concurrent calls never deadlock ... all terminate" (a call
+		// that re-acquires the scheduler lock it already holds, or returns
+		// with it held, blocks every later call).
+		Liveness:    []string{"C06", "C02", "C14"},
+		Livelock:    []string{"C06", "C14"},
 		Panics:      all,
 		Bounds:      bounds,
 		Shards:      shards,
